@@ -139,6 +139,16 @@ func (m *connIDGenerator) issueNewConnID() error {
 	if err != nil {
 		return err
 	}
+	// Short connection IDs collide. Never issue one this connection is still using: the peer
+	// would see the same connection ID under two sequence numbers and retiring one of them would
+	// retire the other as well, and an ID that is still routed while it awaits removal would be
+	// removed from under the new sequence number.
+	for attempts := 0; attempts < 16 && m.isInUse(connID); attempts++ {
+		connID, err = m.generator.GenerateConnectionID()
+		if err != nil {
+			return err
+		}
+	}
 	m.activeSrcConnIDs[m.highestSeq+1] = connID
 	m.connRunners.AddConnectionID(connID)
 	m.queueControlFrame(&wire.NewConnectionIDFrame{
@@ -148,6 +158,20 @@ func (m *connIDGenerator) issueNewConnID() error {
 	})
 	m.highestSeq++
 	return nil
+}
+
+func (m *connIDGenerator) isInUse(connID protocol.ConnectionID) bool {
+	for _, c := range m.activeSrcConnIDs {
+		if c == connID {
+			return true
+		}
+	}
+	for _, c := range m.connIDsToRetire {
+		if c.connID == connID {
+			return true
+		}
+	}
+	return m.initialClientDestConnID != nil && *m.initialClientDestConnID == connID
 }
 
 func (m *connIDGenerator) SetHandshakeComplete(connIDExpiry monotime.Time) {
